@@ -4,10 +4,12 @@ CONSTANTS MaxOps = 4
   MaxErr = 1
   GScales <- ScalesSmall
   Targets <- TargetsSeq
+  Share = FALSE
   Patterns = {1}
 PROPERTY ScaleExact
 PROPERTY UnknownScaleRaises
 PROPERTY GetScalePure
 PROPERTY RoundTrip
+PROPERTY TwinUntouched
 INVARIANT Emitted
 CHECK_DEADLOCK FALSE
